@@ -44,6 +44,7 @@ func H_C11_DecodeHostile() {
 func init() {
 	vRegister("H_C11_Budget", H_C11_Budget)
 	vRegister("H_C11_Count", H_C11_Count)
+	vRegister("H_C11_Chunking", H_C11_Chunking)
 }
 
 // C11 budget: no packet assembled from queued broadcasts exceeds UDPBufferSize on the wire.
@@ -106,7 +107,10 @@ func H_C11_Count() {
 	vUnwind(700)
 	f.vAddSelf(3, nil)
 	f.vAddConcreteAlive(vPeerA, 2).PMax = 2 // no CRC header, so that packets can be unpacked directly
-	k := []int{1, 254, 255, 300}[vPick(4)]
+	k := []int{1, 254, 255, 300, 511, 600}[vPick(6)]
+	if k > 300 {
+		conf.UDPBufferSize = 4096 // jumbo frames: room for more than two full compound messages
+	}
 	for i := 0; i < k; i++ {
 		f.del.bcast = append(f.del.bcast, nil) // empty user messages: 1 framed byte + 2 bytes overhead each
 	}
@@ -138,4 +142,35 @@ func H_C11_Count() {
 		vAssert(vEqBytes(got[0], first), "c11.count.first-message-intact")
 	}
 	vCover("c11.count")
+}
+
+// C11: makeCompoundMessages splits any number of messages into compound messages that together decode to exactly
+// the same messages in the same order.
+func H_C11_Chunking() {
+	vUnwind(1600)
+	n := []int{0, 1, 255, 256, 510, 511, 700}[vPick(7)]
+	msgs := make([][]byte, n)
+	for i := range msgs {
+		msgs[i] = []byte{byte(i), byte(i >> 8)}
+	}
+	// a few symbolic payloads so that content fidelity is decided too
+	if n > 0 {
+		msgs[0] = vBytes(2)
+		msgs[n-1] = vBytes(3)
+	}
+	bufs := makeCompoundMessages(msgs)
+	var got [][]byte
+	for _, b := range bufs {
+		raw := b.Bytes()
+		vAssert(raw[0] == byte(compoundMsg), "c11.chunk.type")
+		trunc, parts, err := decodeCompoundMessage(raw[1:])
+		vAssert(err == nil && trunc == 0, "c11.chunk.decodes")
+		vAssert(len(parts) <= 255, "c11.chunk.at-most-255")
+		got = append(got, parts...)
+	}
+	vAssert(len(got) == n, "c11.chunk.count")
+	for i := 0; i < n && i < len(got); i++ {
+		vAssert(vEqBytes(got[i], msgs[i]), "c11.chunk.content-and-order")
+	}
+	vCover("c11.chunk")
 }
